@@ -2,6 +2,7 @@
 
 import os
 import random
+import re
 
 from .. import common as C
 from .. import facts
@@ -66,7 +67,17 @@ def run(tier, seed, replay=None):
     for pi, p in enumerate(plans):
         src = p.macro_program()
         for j in range(k):
-            progs.append((f"p{pi}", src))
+            # the same tokens at another place in the file (leading white space of varying length: the expansion text does not contain it);
+            # byte offsets / line numbers of the spans differ in value and in number of digits (seeded change C07h sorted by `{span:?}`)
+            pad = [0, 613, 1291, 9803, 97, 100003, 5, 99041][j % 8]
+            if j % 8 in (1, 3):
+                # … aimed: a power of ten falls between the first two impl blocks of the invocation
+                inv_at = src.find("disjoint_impls::disjoint_impls!")
+                offs = [m_.start() for m_ in re.finditer(r"\b(?:unsafe )?impl\b", src[inv_at:])][:2] if inv_at >= 0 else []
+                if len(offs) == 2:
+                    boundary = 10000 if j % 8 == 1 else 100000
+                    pad = max(1, boundary - 1 - (inv_at + offs[1]))
+            progs.append((f"p{pi}", (" " * pad + "\n" if pad else "") + src))
             owner.append((pi, j))
 
     def env_fn(idx):
